@@ -38,7 +38,7 @@ Proof. intros H e. unfold tb_set. cbv zeta. assert (X : (i <? 0) = false) by lia
 
 (* ---- the table invariant ---- *)
 Definition row_ok (src : str) (N l b e t : Z) : Prop :=
-  0 <= b /\ 0 <= t /\ 0 <= e <= len src
+  0 <= b /\ (0 <= t /\ b + t <= e) /\ 0 <= e <= len src
   /\ (l <= N - 2 -> e < len src)
   /\ (e < len src -> py_idx src e = Ok 10)
   /\ (b + t < e -> exists c, py_idx src (b + t) = Ok c /\ is_space c = false).
@@ -531,5 +531,383 @@ Proof.
   rewrite (tabs_eq_lineMax _ _ TT). lia.
 Qed.
 
+
+(* ---- block quote ---- *)
+Lemma bq_blanks_nr : forall fuel src pos maximum offset bs adj, 0 <= pos -> maximum <= len src ->
+  nr (bq_blanks fuel src pos maximum offset bs adj).
+Proof.
+  induction fuel as [|f IH]; intros src pos maximum offset bs adj H0 HM; cbn [bq_blanks]; [apply nr_ok|].
+  destruct (negb (pos <? maximum)) eqn:E; [apply nr_ok|].
+  apply nr_bind; [apply nr_py_idx; lia|]. intros ch _. destruct (is_space ch); [apply IH; lia | apply nr_ok].
+Qed.
+
+(* where the blank scan stops: at the end mark, or on a non-blank (fuel = length of the source suffices) *)
+Lemma bq_blanks_stop : forall fuel src pos maximum offset bs adj p2 o2,
+  bq_blanks fuel src pos maximum offset bs adj = Ok (p2, o2) -> 0 <= pos -> (Z.to_nat (maximum - pos) < fuel)%nat ->
+  p2 < maximum -> exists c, py_idx src p2 = Ok c /\ is_space c = false.
+Proof.
+  induction fuel as [|f IH]; intros src pos maximum offset bs adj p2 o2 H H0 HF HP; [lia|]. cbn [bq_blanks] in H.
+  destruct (negb (pos <? maximum)) eqn:E; [rfinish H; lia|].
+  destruct (py_idx src pos) as [ch|?|] eqn:Ec; cbn [bind] in H; try discriminate H.
+  destruct (is_space ch) eqn:Sp; [eapply IH; [exact H | lia | lia | exact HP]|].
+  rfinish H. exists ch. split; assumption.
+Qed.
+
+Lemma bq_blanks_le : forall fuel src pos maximum offset bs adj p2 o2,
+  bq_blanks fuel src pos maximum offset bs adj = Ok (p2, o2) -> pos <= maximum -> p2 <= maximum.
+Proof.
+  induction fuel as [|f IH]; intros src pos maximum offset bs adj p2 o2 H HP; cbn [bq_blanks] in H; [rfinish H; lia|].
+  destruct (negb (pos <? maximum)) eqn:E; [rfinish H; lia|].
+  rstep H. destruct (is_space x); [apply IH in H; lia | rfinish H; lia].
+Qed.
+
+Lemma bq_strip_nr src pos0 maximum sc bs : 0 <= pos0 -> maximum <= len src -> nr (bq_strip src pos0 maximum sc bs).
+Proof.
+  intros H0 HM. unfold bq_strip. cbv zeta.
+  set (tup := match char_at src (pos0 + 1) with
+              | Some 32 => (pos0 + 1 + 1, sc + 1 + 1, sc + 1 + 1, false, true)
+              | Some 9 => if (bs + (sc + 1)) mod 4 =? 3 then (pos0 + 1 + 1, sc + 1 + 1, sc + 1 + 1, false, true)
+                          else (pos0 + 1, sc + 1, sc + 1, true, true)
+              | _ => (pos0 + 1, sc + 1, sc + 1, false, false)
+              end).
+  assert (P : let '(pos1, _, _, _, _) := tup in 0 <= pos1).
+  { unfold tup. destruct (char_at src (pos0 + 1)) as [[|p|p]|]; try lia.
+    do 6 (try destruct p as [p|p|]); try lia. destruct ((bs + (sc + 1)) mod 4 =? 3); lia. }
+  destruct tup as [[[[pos1 initial] offset] adj] sa].
+  apply nr_bind; [apply bq_blanks_nr; lia|]. intros [p2 o2] _. apply nr_ok.
+Qed.
+
+(* the new row of a stripped line is well formed *)
+Lemma bq_strip_row src N l pos0 e sc bs q : bq_strip src pos0 e sc bs = Ok q ->
+  0 <= pos0 -> pos0 < e -> 0 <= e <= len src -> (l <= N - 2 -> e < len src) -> (e < len src -> py_idx src e = Ok 10) ->
+  row_ok src N l (q_bMark q) e (q_tShift q) /\ 0 <= q_sCount q.
+Proof.
+  intros H H0 HP HE I1 I3. unfold bq_strip in H. cbv zeta in H.
+  set (tup := match char_at src (pos0 + 1) with
+              | Some 32 => (pos0 + 1 + 1, sc + 1 + 1, sc + 1 + 1, false, true)
+              | Some 9 => if (bs + (sc + 1)) mod 4 =? 3 then (pos0 + 1 + 1, sc + 1 + 1, sc + 1 + 1, false, true)
+                          else (pos0 + 1, sc + 1, sc + 1, true, true)
+              | _ => (pos0 + 1, sc + 1, sc + 1, false, false)
+              end) in *.
+  (* a blank directly behind the marker lies before the end mark: at the end mark sits a line feed or nothing *)
+  assert (P : let '(pos1, initial, offset, _, _) := tup in pos0 + 1 <= pos1 <= e /\ offset = initial).
+  { unfold tup. destruct (char_at src (pos0 + 1)) as [c|] eqn:Ec; [|split; [lia | reflexivity]].
+    assert (BL : is_space c = true -> pos0 + 2 <= e).
+    { intros Sp. destruct (Z.eq_dec (pos0 + 1) e) as [Eq|Ne]; [|lia]. exfalso.
+      rewrite LfCount.char_at_nonneg in Ec by lia.
+      assert (LL : pos0 + 1 < len src) by (assert (Z.to_nat (pos0 + 1) < length src)%nat by (apply nth_error_Some; congruence); unfold len; lia).
+      rewrite Eq in *. specialize (I3 LL). apply py_idx_get in I3; [|lia]. destruct I3 as [I3 _]. rewrite I3 in Ec. injection Ec as <-. discriminate Sp. }
+    destruct c as [|p|p]; try (split; [lia | reflexivity]).
+    do 6 (try destruct p as [p|p|]); try (split; [lia | reflexivity]).
+    - destruct ((bs + (sc + 1)) mod 4 =? 3); (split; [|reflexivity]); [specialize (BL eq_refl); lia | lia].
+    - specialize (BL eq_refl). split; [lia | reflexivity]. }
+  destruct tup as [[[[pos1 initial] offset] adj] sa]. destruct P as [P1 ->].
+  destruct (bq_blanks (S (length src)) src pos1 e initial bs adj) as [[p2 o2]|?|] eqn:BB; cbn [bind] in H; try discriminate H.
+  pose proof (bq_blanks_mono _ _ _ _ _ _ _ _ _ BB) as [M1 M2]. pose proof (bq_blanks_le _ _ _ _ _ _ _ _ _ BB ltac:(lia)) as M3.
+  injection H as <-. cbn [q_bMark q_tShift q_sCount]. split; [|lia].
+  unfold row_ok. repeat split; try lia; try assumption.
+  intros Hlt. replace (pos1 + (p2 - pos1)) with p2 in * by lia.
+  eapply bq_blanks_stop; [exact BB | lia | | exact Hlt]. unfold len in HE. lia.
+Qed.
+
+(* rewriting one row keeps the invariant *)
+Lemma RI_row_update N st st' l :
+  RI N st -> 0 <= l <= N ->
+  b_src st' = b_src st -> b_eMarks st' = b_eMarks st -> 0 <= b_lineMax st' <= N ->
+  len (b_bMarks st') = N + 1 -> len (b_tShift st') = N + 1 -> len (b_sCount st') = N + 1 -> len (b_bsCount st') = N + 1 ->
+  (forall j, 0 <= j -> j <> l -> tb (b_bMarks st') j = tb (b_bMarks st) j /\ tb (b_tShift st') j = tb (b_tShift st) j) ->
+  (forall b e t, tb (b_bMarks st') l = Ok b -> tb (b_eMarks st) l = Ok e -> tb (b_tShift st') l = Ok t -> row_ok (b_src st) N l b e t) ->
+  RI N st'.
+Proof.
+  intros (LM & L1 & L2 & L3 & L4 & L5 & R) Hl ES EE LM' M1 M3 M4 M5 OT NEW.
+  unfold RI. rewrite ES, EE. split; [exact LM'|]. repeat (split; [assumption|]).
+  intros j b e t Hj Eb Ee Et. destruct (Z.eq_dec j l) as [->|Nj].
+  - exact (NEW b e t Eb Ee Et).
+  - destruct (OT j ltac:(lia) Nj) as [A B]. rewrite A in Eb. rewrite B in Et. exact (R j b e t Hj Eb Ee Et).
+Qed.
+
+Lemma apply_bq_r N st line q : RI N st -> 0 <= line <= N ->
+  (forall e, tb (b_eMarks st) line = Ok e -> row_ok (b_src st) N line (q_bMark q) e (q_tShift q)) ->
+  nr (apply_bq st line q)
+  /\ forall st', apply_bq st line q = Ok st' ->
+       RI N st' /\ b_src st' = b_src st /\ b_eMarks st' = b_eMarks st /\ b_lineMax st' = b_lineMax st
+       /\ tb (b_sCount st') line = Ok (q_sCount q) /\ (forall j, 0 <= j -> j <> line -> tb (b_sCount st') j = tb (b_sCount st) j)
+       /\ b_blkIndent st' = b_blkIndent st /\ b_tokens st' = b_tokens st /\ b_line st' = b_line st.
+Proof.
+  intros R Hl G. pose proof R as (LM & L1 & L2 & L3 & L4 & L5 & _). unfold apply_bq. split.
+  - apply nr_bind; [apply tb_set_nr; lia|]. intros bm _. apply nr_bind; [apply tb_set_nr; lia|]. intros bs _.
+    apply nr_bind; [apply tb_set_nr; lia|]. intros sc _. apply nr_bind; [apply tb_set_nr; lia|]. intros ts _. apply nr_ok.
+  - intros st' H.
+    destruct (tb_set (b_bMarks st) line (q_bMark q)) as [bm|?|] eqn:E1; cbn [bind] in H; try discriminate H.
+    destruct (tb_set (b_bsCount st) line (q_bsCount q)) as [bs|?|] eqn:E2; cbn [bind] in H; try discriminate H.
+    destruct (tb_set (b_sCount st) line (q_sCount q)) as [sc|?|] eqn:E3; cbn [bind] in H; try discriminate H.
+    destruct (tb_set (b_tShift st) line (q_tShift q)) as [ts|?|] eqn:E4; cbn [bind] in H; try discriminate H.
+    injection H as <-.
+    destruct (tb_set_spec _ _ _ _ E1 ltac:(lia)) as (V1 & O1 & K1). destruct (tb_set_spec _ _ _ _ E2 ltac:(lia)) as (V2 & O2 & K2).
+    destruct (tb_set_spec _ _ _ _ E3 ltac:(lia)) as (V3 & O3 & K3). destruct (tb_set_spec _ _ _ _ E4 ltac:(lia)) as (V4 & O4 & K4).
+    split; [|cbn; split; [reflexivity|]; split; [reflexivity|]; split; [reflexivity|]; split; [exact V3|]; split; [exact O3|]; split; [reflexivity|]; split; reflexivity].
+    apply (RI_row_update N st _ line R Hl); cbn; try reflexivity; try lia.
+    + intros j Hj Nj. split; [apply O1 | apply O4]; assumption.
+    + intros b e t Eb Ee Et. rewrite V1 in Eb. rewrite V4 in Et. injection Eb as <-. injection Et as <-. exact (G e Ee).
+Qed.
+
+(* saved rows that may be written back *)
+Fixpoint svr (src : str) (eM : list Z) (N line : Z) (b ts : list Z) : Prop :=
+  match b, ts with
+  | x :: b', t :: ts' => (forall e, tb eM line = Ok e -> row_ok src N line x e t) /\ svr src eM N (line + 1) b' ts'
+  | _, _ => True
+  end.
+
+Lemma svr_snoc src eM N : forall b ts line x t, svr src eM N line b ts -> length b = length ts ->
+  (forall e, tb eM (line + len b) = Ok e -> row_ok src N (line + len b) x e t) -> svr src eM N line (b ++ [x]) (ts ++ [t]).
+Proof.
+  induction b as [|y b IH]; intros ts line x t H L G.
+  - destruct ts; [|discriminate L]. cbn. unfold len in G. cbn in G. rewrite Z.add_0_r in G. split; [exact G | trivial].
+  - destruct ts as [|u ts]; [discriminate L|]. cbn [app svr] in *. destruct H as [H1 H2]. split; [exact H1|].
+    apply IH; [exact H2 | cbn in L; lia|]. replace (line + 1 + len b) with (line + len (y :: b)) by (unfold len; cbn [length]; lia). exact G.
+Qed.
+
+Lemma save_line_r N sv st line sl0 : RI N st -> 0 <= line <= N ->
+  svr (b_src st) (b_eMarks st) N sl0 (o_b sv) (o_ts sv) -> len (o_b sv) = line - sl0 -> len (o_ts sv) = line - sl0 ->
+  len (o_bs sv) = line - sl0 -> len (o_sc sv) = line - sl0 ->
+  nr (save_line sv st line)
+  /\ forall sv', save_line sv st line = Ok sv' ->
+       svr (b_src st) (b_eMarks st) N sl0 (o_b sv') (o_ts sv') /\ len (o_b sv') = line + 1 - sl0 /\ len (o_ts sv') = line + 1 - sl0
+       /\ len (o_bs sv') = line + 1 - sl0 /\ len (o_sc sv') = line + 1 - sl0.
+Proof.
+  intros R Hl SO L1 L2 L3 L4.
+  destruct (RI_reads N st line R Hl) as (b & e & t & sc & bs & Eb & Ee & Et & Es & Ebs & RO).
+  unfold save_line. rewrite Eb, Ebs, Et, Es. cbn [bind]. split; [apply nr_ok|].
+  intros sv' H. injection H as <-. cbn [o_b o_ts o_bs o_sc]. split.
+  - apply svr_snoc; [exact SO | unfold len in *; lia|]. replace (sl0 + len (o_b sv)) with line by lia.
+    intros e' Ee'. rewrite Ee in Ee'. injection Ee' as <-. exact RO.
+  - rewrite !len_app. unfold len at 2 4 6 8. cbn [length]. lia.
+Qed.
+
+Lemma restore_tables_r N : forall ts st line b bs sc,
+  RI N st -> 0 <= line -> line + len ts <= N + 1 -> length b = length ts -> length bs = length ts -> length sc = length ts ->
+  svr (b_src st) (b_eMarks st) N line b ts ->
+  nr (restore_tables st line b bs ts sc)
+  /\ forall st', restore_tables st line b bs ts sc = Ok st' ->
+       RI N st' /\ b_src st' = b_src st /\ b_eMarks st' = b_eMarks st /\ b_lineMax st' = b_lineMax st
+       /\ b_tokens st' = b_tokens st /\ b_line st' = b_line st /\ b_blkIndent st' = b_blkIndent st.
+Proof.
+  induction ts as [|t ts IH]; intros st line b bs sc R H0 HN Lb Lbs Lsc SO.
+  - destruct b; [|discriminate Lb]. destruct bs; [|discriminate Lbs]. destruct sc; [|discriminate Lsc].
+    cbn [restore_tables]. split; [apply nr_ok|]. intros st' H. injection H as <-. split; [exact R|]. repeat split.
+  - destruct b as [|x b]; [discriminate Lb|]. destruct bs as [|y bs]; [discriminate Lbs|]. destruct sc as [|s sc]; [discriminate Lsc|].
+    cbn [restore_tables]. rewrite len_cons in HN. pose proof (len_nonneg ts) as Lt.
+    pose proof R as (LM & L1 & L2 & L3 & L4 & L5 & _). cbn [svr] in SO. destruct SO as [G SO].
+    destruct (tb_set (b_bMarks st) line x) as [bm|e1|] eqn:E1; [|exfalso; exact (tb_set_nr (b_bMarks st) line x ltac:(lia) e1 E1)|cbn [bind]; split; [apply nr_oof | discriminate]].
+    destruct (tb_set (b_tShift st) line t) as [tsl|e2|] eqn:E2; [|exfalso; exact (tb_set_nr (b_tShift st) line t ltac:(lia) e2 E2)|cbn [bind]; split; [apply nr_oof | discriminate]].
+    destruct (tb_set (b_sCount st) line s) as [scl|e3|] eqn:E3; [|exfalso; exact (tb_set_nr (b_sCount st) line s ltac:(lia) e3 E3)|cbn [bind]; split; [apply nr_oof | discriminate]].
+    destruct (tb_set (b_bsCount st) line y) as [bsl|e4|] eqn:E4; [|exfalso; exact (tb_set_nr (b_bsCount st) line y ltac:(lia) e4 E4)|cbn [bind]; split; [apply nr_oof | discriminate]].
+    cbn [bind].
+    destruct (tb_set_spec _ _ _ _ E1 ltac:(lia)) as (V1 & O1 & K1). destruct (tb_set_spec _ _ _ _ E2 ltac:(lia)) as (V2 & O2 & K2).
+    destruct (tb_set_spec _ _ _ _ E3 ltac:(lia)) as (V3 & O3 & K3). destruct (tb_set_spec _ _ _ _ E4 ltac:(lia)) as (V4 & O4 & K4).
+    match goal with |- nr (restore_tables ?S _ _ _ _ _) /\ _ => assert (R1 : RI N S) end.
+    { apply (RI_row_update N st _ line R ltac:(lia)); cbn; try reflexivity; try lia.
+      - intros j Hj Nj. split; [apply O1 | apply O2]; assumption.
+      - intros b0 e t0 Eb Ee Et. rewrite V1 in Eb. rewrite V2 in Et. injection Eb as <-. injection Et as <-. exact (G e Ee). }
+    match goal with |- nr (restore_tables ?S _ _ _ _ _) /\ _ =>
+      destruct (IH S (line + 1) b bs sc R1 ltac:(lia) ltac:(lia) ltac:(cbn in Lb; lia) ltac:(cbn in Lbs; lia) ltac:(cbn in Lsc; lia) SO) as [NR POST] end.
+    split; [exact NR|]. intros st' H. destruct (POST st' H) as (A & B & C & D & E & F & G2). cbn in B, C, D, E, F, G2.
+    split; [exact A|]. repeat split; assumption.
+Qed.
+
+(* changes that leave the marks alone: lineMax lowered, sCount entries rewritten *)
+Lemma RI_same_marks N st st' : RI N st ->
+  b_src st' = b_src st -> b_bMarks st' = b_bMarks st -> b_eMarks st' = b_eMarks st -> b_tShift st' = b_tShift st ->
+  0 <= b_lineMax st' <= N -> len (b_sCount st') = N + 1 -> len (b_bsCount st') = N + 1 -> RI N st'.
+Proof.
+  intros (LM & L1 & L2 & L3 & L4 & L5 & RR) A1 A2 A3 A4 LM' K4 K5. unfold RI. rewrite A1, A2, A3, A4.
+  split; [exact LM'|]. split; [exact L1|]. split; [exact L2|]. split; [exact L3|]. split; [exact K4|]. split; [exact K5|]. exact RR.
+Qed.
+
+Definition sv_lens (sv : saved) (n : Z) : Prop := len (o_b sv) = n /\ len (o_ts sv) = n /\ len (o_bs sv) = n /\ len (o_sc sv) = n.
+
+Lemma bq_loop_r N term (T : term_fr term) (TN : term_nr N term) sl0 : forall fuel st sv nl el lle,
+  RI N st -> 0 <= sl0 -> sl0 < nl -> nl <= el -> el <= b_lineMax st ->
+  svr (b_src st) (b_eMarks st) N sl0 (o_b sv) (o_ts sv) -> sv_lens sv (nl - sl0) ->
+  nr (bq_loop fuel term st sv nl el lle)
+  /\ forall r sv' st', bq_loop fuel term st sv nl el lle = Ok (r, sv', st') ->
+       RI N st' /\ nl <= r <= el /\ r <= b_lineMax st' <= b_lineMax st
+       /\ b_src st' = b_src st /\ b_eMarks st' = b_eMarks st
+       /\ svr (b_src st') (b_eMarks st') N sl0 (o_b sv') (o_ts sv') /\ (exists n, sv_lens sv' n /\ r - sl0 <= n <= r + 1 - sl0).
+Proof.
+  induction fuel as [|f IH]; intros st sv nl el lle R S0 S1 L0 L1 SO (N1 & N2 & N3 & N4); [split; [apply nr_oof | discriminate]|].
+  cbn [bq_loop].
+  assert (LMN : b_lineMax st <= N) by (destruct R as [LM _]; lia).
+  destruct (negb (nl <? el)) eqn:NE.
+  { split; [apply nr_ok|]. intros r sv' st' H. injection H as <- <- <-. split; [exact R|]. split; [lia|]. split; [lia|].
+    split; [reflexivity|]. split; [reflexivity|]. split; [exact SO|]. exists (nl - sl0). split; [repeat split; assumption | lia]. }
+  destruct (RI_reads N st nl R ltac:(lia)) as (b & e & t & sc & bs & Eb & Ee & Et & Es & Ebs & (B0 & T0 & E0 & I1 & I3 & I2)).
+  unfold line_start. rewrite Es. cbn [bind]. rewrite Eb, Et. cbn [bind]. rewrite Ee. cbn [bind].
+  destruct (e <=? b + t) eqn:MP.
+  { split; [apply nr_ok|]. intros r sv' st' H. injection H as <- <- <-. split; [exact R|]. split; [lia|]. split; [lia|].
+    split; [reflexivity|]. split; [reflexivity|]. split; [exact SO|]. exists (nl - sl0). split; [repeat split; assumption | lia]. }
+  destruct (py_idx (b_src st) (b + t)) as [c|ex|] eqn:Ec; cbn [bind].
+  2:{ exfalso. exact (nr_py_idx (b_src st) (b + t) ltac:(lia) ex Ec). }
+  2:{ split; [apply nr_oof | discriminate]. }
+  destruct ((c =? 62) && negb (sc <? b_blkIndent st)) eqn:Q.
+  - (* a quoted line *)
+    rewrite Ebs. cbn [bind].
+    destruct (bq_strip (b_src st) (b + t) e sc bs) as [q|ex|] eqn:BS; cbn [bind].
+    2:{ exfalso. exact (bq_strip_nr (b_src st) (b + t) e sc bs ltac:(lia) ltac:(lia) ex BS). }
+    2:{ split; [apply nr_oof | discriminate]. }
+    destruct (bq_strip_row _ N nl _ _ _ _ _ BS ltac:(lia) ltac:(lia) E0 I1 I3) as [RO QS].
+    destruct (save_line_r N sv st nl sl0 R ltac:(lia) SO N1 N2 N3 N4) as [SN SP].
+    destruct (save_line sv st nl) as [sv1|ex|] eqn:SL; cbn [bind].
+    2:{ exfalso. exact (SN ex eq_refl). }
+    2:{ split; [apply nr_oof | discriminate]. }
+    destruct (SP sv1 eq_refl) as (SO1 & M1 & M2 & M3 & M4).
+    destruct (apply_bq_r N st nl q R ltac:(lia)) as [AN AP].
+    { intros e' Ee'. rewrite Ee in Ee'. injection Ee' as <-. exact RO. }
+    destruct (apply_bq st nl q) as [st1|ex|] eqn:AB; cbn [bind].
+    2:{ exfalso. exact (AN ex eq_refl). }
+    2:{ split; [apply nr_oof | discriminate]. }
+    destruct (AP st1 eq_refl) as (R1 & A1 & A2 & A3 & _).
+    destruct (IH st1 sv1 (nl + 1) el (q_empty q) R1 S0 ltac:(lia) ltac:(lia) ltac:(lia)) as [NR POST].
+    { rewrite A1, A2. exact SO1. }
+    { repeat split; lia. }
+    split; [exact NR|]. intros r sv' st' H. destruct (POST r sv' st' H) as (P1 & P2 & P3 & P4 & P5 & P6 & P7).
+    split; [exact P1|]. split; [lia|]. split; [lia|]. split; [congruence|]. split; [congruence|]. split; [exact P6 | exact P7].
+  - destruct lle.
+    { split; [apply nr_ok|]. intros r sv' st' H. injection H as <- <- <-. split; [exact R|]. split; [lia|]. split; [lia|].
+      split; [reflexivity|]. split; [reflexivity|]. split; [exact SO|]. exists (nl - sl0). split; [repeat split; assumption | lia]. }
+    destruct (term nm_blockquote st nl el) as [[tt st1]|ex|] eqn:TE; cbn [bind].
+    2:{ exfalso. refine (TN nm_blockquote st nl el ltac:(discriminate) _ ex TE). split; [exact R|]. lia. }
+    2:{ split; [apply nr_oof | discriminate]. }
+    pose proof (T nm_blockquote _ _ _ _ _ ltac:(discriminate) TE) as F.
+    pose proof (fr_tabs_eq _ _ F) as TQ. pose proof (tabs_eq_RI _ _ _ TQ R) as R1.
+    destruct TQ as (Q1 & Q2 & Q3 & Q4 & Q5 & Q6 & Q7).
+    destruct tt.
+    + (* a terminator stops the quote here *)
+      cbv zeta.
+      assert (R2 : RI N (st1 <| b_lineMax := nl |>)).
+      { pose proof R1 as (LM1 & K1 & K2 & K3 & K4 & K5 & RR). apply (RI_same_marks N st1 _ R1); try reflexivity; cbn; try lia; assumption. }
+      destruct (negb (b_blkIndent (st1 <| b_lineMax := nl |>) =? 0)).
+      * destruct (save_line_r N sv (st1 <| b_lineMax := nl |>) nl sl0 R2 ltac:(lia)) as [SN SP]; try assumption.
+        { cbn. rewrite Q1, Q3. exact SO. }
+        destruct (save_line sv (st1 <| b_lineMax := nl |>) nl) as [sv1|ex|] eqn:SL; cbn [bind].
+        2:{ exfalso. exact (SN ex eq_refl). }
+        2:{ split; [apply nr_oof | discriminate]. }
+        destruct (SP sv1 eq_refl) as (SO1 & M1 & M2 & M3 & M4). cbn in SO1.
+        pose proof R1 as (_ & _ & _ & _ & K4 & _).
+        destruct (tb_set (b_sCount (st1 <| b_lineMax := nl |>)) nl (sc - b_blkIndent (st1 <| b_lineMax := nl |>))) as [scs|ex|] eqn:TS; cbn [bind].
+        2:{ exfalso. refine (tb_set_nr _ _ _ _ ex TS). cbn. lia. }
+        2:{ split; [apply nr_oof | discriminate]. }
+        split; [apply nr_ok|]. intros r sv' st' H. injection H as <- <- <-.
+        destruct (tb_set_spec _ _ _ _ TS ltac:(lia)) as (_ & _ & KL). cbn in KL.
+        split.
+        { pose proof R2 as (LM2 & K1' & K2' & K3' & K4' & K5' & RR). apply (RI_same_marks N (st1 <| b_lineMax := nl |>) _ R2); try reflexivity; cbn in *; try lia; assumption. }
+        cbn. split; [lia|]. split; [lia|]. split; [exact Q1|]. split; [exact Q3|]. split; [exact SO1|].
+        exists (nl + 1 - sl0). split; [repeat split; assumption | lia].
+      * split; [apply nr_ok|]. intros r sv' st' H. injection H as <- <- <-.
+        split; [exact R2|]. cbn. split; [lia|]. split; [lia|]. split; [exact Q1|]. split; [exact Q3|].
+        split; [rewrite Q1, Q3; exact SO|]. exists (nl - sl0). split; [repeat split; assumption | lia].
+    + (* a lazy continuation line *)
+      destruct (save_line_r N sv st1 nl sl0 R1 ltac:(lia)) as [SN SP]; try assumption.
+      { rewrite Q1, Q3. exact SO. }
+      destruct (save_line sv st1 nl) as [sv1|ex|] eqn:SL; cbn [bind].
+      2:{ exfalso. exact (SN ex eq_refl). }
+      2:{ split; [apply nr_oof | discriminate]. }
+      destruct (SP sv1 eq_refl) as (SO1 & M1 & M2 & M3 & M4).
+      pose proof R1 as (LM1 & K1 & K2 & K3 & K4 & K5 & RR).
+      destruct (tb_set (b_sCount st1) nl (-1)) as [scs|ex|] eqn:TS; cbn [bind].
+      2:{ exfalso. refine (tb_set_nr _ _ _ _ ex TS). lia. }
+      2:{ split; [apply nr_oof | discriminate]. }
+      destruct (tb_set_spec _ _ _ _ TS ltac:(lia)) as (_ & _ & KL).
+      assert (R3 : RI N (st1 <| b_sCount := scs |>)).
+      { apply (RI_same_marks N st1 _ R1); try reflexivity; cbn; try lia; assumption. }
+      destruct (IH (st1 <| b_sCount := scs |>) sv1 (nl + 1) el false R3 S0 ltac:(lia) ltac:(lia)) as [NR POST].
+      { cbn. lia. }
+      { cbn. exact SO1. }
+      { repeat split; lia. }
+      split; [exact NR|]. intros r sv' st' H. destruct (POST r sv' st' H) as (P1 & P2 & P3 & P4 & P5 & P6 & P7). cbn in P3, P4, P5.
+      split; [exact P1|]. split; [lia|]. split; [lia|]. split; [congruence|]. split; [congruence|]. split; [exact P6 | exact P7].
+Qed.
+
+(* what a rule or the nested tokenize leaves behind *)
+Definition post_ok (N : Z) (st st' : bstate) : Prop :=
+  RI N st' /\ b_lineMax st' = b_lineMax st /\ b_src st' = b_src st /\ b_eMarks st' = b_eMarks st.
+Lemma post_tabs N st st' : RI N st -> tabs_eq st st' -> post_ok N st st'.
+Proof. intros R T. split; [exact (tabs_eq_RI _ _ _ T R)|]. destruct T as (A1 & _ & A3 & _ & _ & _ & A7). repeat split; assumption. Qed.
+
+Definition rec_n (N : Z) (rec : rec_t) : Prop := forall st a b,
+  RI N st -> 0 <= a -> a < b -> b <= b_lineMax st ->
+  nr (rec st a b) /\ forall st', rec st a b = Ok st' -> post_ok N st st'.
+
+Lemma r_blockquote_r N rec term (RN : rec_n N rec) (T : term_fr term) (TN : term_nr N term) st sl el silent :
+  pre2 N st sl el ->
+  nr (r_blockquote cfg rec term st sl el silent)
+  /\ forall b st', r_blockquote cfg rec term st sl el silent = Ok (b, st') -> post_ok N st st'.
+Proof.
+  intros (R & S0 & S1 & S2). assert (Hl : 0 <= sl <= N) by (destruct R as [LM _]; lia).
+  assert (LMN : b_lineMax st <= N) by (destruct R as [LM _]; lia). prologue R Hl.
+  assert (SAME : post_ok N st st) by (apply post_tabs; [exact R | apply tabs_eq_refl]).
+  unfold r_blockquote, line_start, code_block_at, is_code_block. cbv zeta. rewrite Eb, Et, Ee, Es. cbn [bind].
+  destruct (c_code cfg && (4 <=? sc - b_blkIndent st)); [split; [apply nr_ok | intros b0 st' H; injection H as <- <-; exact SAME]|].
+  rewrite match_some_62.
+  destruct (match char_at (b_src st) (b + t) with Some z => z =? 62 | None => false end) eqn:C62;
+    [|split; [apply nr_ok | intros b0 st' H; injection H as <- <-; exact SAME]].
+  destruct silent; [split; [apply nr_ok | intros b0 st' H; injection H as <- <-; exact SAME]|].
+  rewrite Ebs. cbn [bind].
+  (* the marker is a character of the line: the line is not empty *)
+  assert (PE : b + t < e).
+  { destruct (Z_lt_le_dec (b + t) e) as [Lt|Ge]; [exact Lt|]. exfalso.
+    destruct (char_at (b_src st) (b + t)) as [z|] eqn:Ez; [|discriminate C62]. assert (z = 62) by lia. subst z.
+    rewrite LfCount.char_at_nonneg in Ez by lia.
+    assert (LL : b + t < len (b_src st)) by (assert (Z.to_nat (b + t) < length (b_src st))%nat by (apply nth_error_Some; congruence); unfold len; lia).
+    assert (b + t = e) by lia. rewrite H in *. specialize (I3 LL). apply py_idx_get in I3; [|lia]. destruct I3 as [I3 _].
+    rewrite I3 in Ez. discriminate Ez. }
+  destruct (bq_strip (b_src st) (b + t) e sc bs) as [q|ex|] eqn:BS; cbn [bind].
+  2:{ exfalso. exact (bq_strip_nr (b_src st) (b + t) e sc bs ltac:(lia) ltac:(lia) ex BS). }
+  2:{ split; [apply nr_oof | discriminate]. }
+  destruct (bq_strip_row _ N sl _ _ _ _ _ BS ltac:(lia) PE E0 I1 I3) as [RO QS].
+  destruct (save_line_r N (mkSaved [] [] [] []) st sl sl R Hl I ltac:(cbn; lia) ltac:(cbn; lia) ltac:(cbn; lia) ltac:(cbn; lia)) as [SN SP].
+  destruct (save_line (mkSaved [] [] [] []) st sl) as [sv0|ex|] eqn:SL; cbn [bind].
+  2:{ exfalso. exact (SN ex eq_refl). }
+  2:{ split; [apply nr_oof | discriminate]. }
+  destruct (SP sv0 eq_refl) as (SO1 & M1 & M2 & M3 & M4).
+  destruct (apply_bq_r N st sl q R Hl) as [AN AP].
+  { intros e' Ee'. rewrite Ee in Ee'. injection Ee' as <-. exact RO. }
+  destruct (apply_bq st sl q) as [st1|ex|] eqn:AB; cbn [bind].
+  2:{ exfalso. exact (AN ex eq_refl). }
+  2:{ split; [apply nr_oof | discriminate]. }
+  destruct (AP st1 eq_refl) as (R1 & A1 & A2 & A3 & _).
+  destruct (bq_loop_r N term T TN sl (S (Z.to_nat (el - sl))) (st_parent st1 nm_blockquote) sv0 (sl + 1) el (q_empty q)) as [LN LP].
+  { exact R1. } { lia. } { lia. } { lia. } { cbn. lia. } { cbn. rewrite A1, A2. exact SO1. } { repeat split; lia. }
+  destruct (bq_loop (S (Z.to_nat (el - sl))) term (st_parent st1 nm_blockquote) sv0 (sl + 1) el (q_empty q)) as [[[nl sv] st3]|ex|] eqn:BL; cbn [bind].
+  2:{ exfalso. exact (LN ex eq_refl). }
+  2:{ split; [apply nr_oof | discriminate]. }
+  destruct (LP nl sv st3 eq_refl) as (R3 & B1 & B2 & B3 & B4 & SO3 & (n & (V1 & V2 & V3 & V4) & NB)). cbn in B2, B3, B4.
+  match goal with |- nr (bind (rec ?S5 _ _) _) /\ _ => assert (R5 : RI N S5 /\ b_lineMax S5 = b_lineMax st3 /\ b_src S5 = b_src st3 /\ b_eMarks S5 = b_eMarks st3) end.
+  { split; [|repeat split]. pose proof R3 as (LM3 & K1 & K2 & K3 & K4 & K5 & RR).
+    apply (RI_same_marks N st3 _ R3); try reflexivity; cbn; try lia; assumption. }
+  destruct R5 as (R5 & LM5 & SR5 & EM5).
+  match goal with |- nr (bind (rec ?S5 ?a ?b0) _) /\ _ => destruct (RN S5 a b0 R5 S0 ltac:(lia) ltac:(rewrite LM5; lia)) as [RNN RNP];
+    destruct (rec S5 a b0) as [st6|ex|] eqn:RC; cbn [bind] end.
+  2:{ exfalso. exact (RNN ex eq_refl). }
+  2:{ split; [apply nr_oof | discriminate]. }
+  destruct (RNP st6 eq_refl) as (R6 & LM6 & SR6 & EM6).
+  match goal with |- nr (bind (restore_tables ?S9 _ _ _ _ _) _) /\ _ =>
+    assert (R9 : RI N S9 /\ b_src S9 = b_src st6 /\ b_eMarks S9 = b_eMarks st6 /\ b_lineMax S9 = b_lineMax st) end.
+  { split; [|repeat split]. pose proof R6 as (LM6' & K1 & K2 & K3 & K4 & K5 & RR).
+    apply (RI_same_marks N st6 _ R6); try reflexivity; cbn; try lia; assumption. }
+  destruct R9 as (R9 & SR9 & EM9 & LM9).
+  match goal with |- nr (bind (restore_tables ?S9 ?l ?bb ?bss ?tss ?scs) _) /\ _ =>
+    destruct (restore_tables_r N tss S9 l bb bss scs R9 S0) as [TN9 TP9] end.
+  { unfold len in *. lia. } { unfold len in *. lia. } { unfold len in *. lia. } { unfold len in *. lia. }
+  { rewrite SR9, EM9, SR6, EM6, SR5, EM5. exact SO3. }
+  match goal with |- nr (bind ?m _) /\ _ => destruct m as [st10|ex|] eqn:RT; cbn [bind] end.
+  2:{ exfalso. exact (TN9 ex eq_refl). }
+  2:{ split; [apply nr_oof | discriminate]. }
+  destruct (TP9 st10 eq_refl) as (R10 & SR10 & EM10 & LM10 & _).
+  split; [apply nr_ok|]. intros b0 st' H. injection H as <- <-.
+  split.
+  { pose proof R10 as (LMx & K1 & K2 & K3 & K4 & K5 & RR). apply (RI_same_marks N st10 _ R10); try reflexivity; cbn; try lia; assumption. }
+  cbn. split; [congruence|]. split; congruence.
+Qed.
 
 End Rules.
